@@ -15,9 +15,15 @@ CHECKS = {
     "C03": ("E1", "bounded-exhaustive enumeration of multigraphs x speed/heading/delay/unit/initial-state configurations; every returned route walked against reference accumulation",
             "Every route returned by Dijkstra, A*, single-via KSP (incl. the re-oriented reverse half), both directions and orientations, is walked edge by edge: reported state = reference accumulation of length, length/speed and classified turn delay in the configured units, each edge's cost = weighted rated change of the reported state, monotone distance/time, declared initial state.",
             "Trusted: refmodel arithmetic in world/sw.rs. Edge-oriented origin/destination edges may follow the zero-cost convention (statement's exception).", "§4.3"),
+    "C04": ("E1", "bounded-exhaustive enumeration of multigraphs x restriction configurations built by the repository's own frontier services on the real search vs raw restriction inputs in physical units",
+            "For every enumerated network: road-class tables x allowed sets (numeric and mapped names), the six vehicle-restriction kinds with limit and vehicle one step apart in different units, every single restricted turn and pairs of them, combined models of 2-3 members, and edge cuts (EdgeCutFrontierModel); Dijkstra, A*, single-via KSP, forward/reverse, vertex/edge orientation; every route and tree edge must be permitted by the raw inputs, no consecutive route pair may be a restricted turn.",
+            "Trusted: reference evaluation of restrictions (refmodel units, 1e-3 dead band). Origin/destination edges of edge-oriented queries are chosen among permitted edges.", "§4.4"),
     "C05": ("E1", "bounded-exhaustive enumeration of (also disconnected) multigraphs x edge-local restriction sets on the real search vs BFS reachability / Bellman-Ford labels",
             "For every enumerated network, restriction set, algorithm, direction and orientation: Ok with a valid non-empty route iff the destination is BFS-reachable over permitted edges, otherwise exactly the no-path error; destination-less searches return exactly the reachable set with least-cost labels.",
             "Trusted: refmodel BFS/Bellman-Ford. Restrictions are an edge-set frontier model supplied by the harness (the repository's own restriction models are exercised in C04).", "§4.5"),
+    "C07": ("E1", "bounded-exhaustive enumeration of cost configurations x state-pair lattice on CostModel and EdgeTraversal vs closed-form cost",
+            "Every cost configuration of the alphabet (1-3 features, weights incl. zero and negative, 8 rate mappings incl. nested combined, 5 network rates, sum/mul) is evaluated on every (prev,next) pair of the {-2..2}^k lattice through traversal_cost, access_cost, cost_estimate and through forward/reverse EdgeTraversal with synthetic access/traversal models: finite, strictly positive (non-negative for estimates), equal to the formula with floor under sum, linear in weights, zero-weight features ignored.",
+            "Trusted: closed-form reference in props/c07.rs. Mul aggregation: positivity/finiteness only.", "§4.7"),
     "C09": ("E1", "bounded-exhaustive enumeration of the complete finite unit-pair space on the real code vs physical reference factors",
             "Every ordered unit pair of all six families and every constructor unit triple is executed on the implementation and compared with SI factors, linearity, identity and round-trip laws; the pair space is finite and covered completely.",
             "Trusted: reference factors in harness/src/refmodel/units.rs; magnitudes outside the alphabet follow from linearity of constant-factor tables.", "§4.9"),
